@@ -43,7 +43,8 @@ fn ops(c: &mut Cur, max: usize) -> Vec<Op> {
     while !c.done() && out.len() < max {
         let b = c.u8();
         out.push(match b % 18 {
-            0..=7 => Op::Add(match c.u8() % 8 {
+            0..=7 => Op::Add(match c.u8() % 9 {
+                8 => AddKind::Huge(c.u8() % 8),
                 0 => AddKind::Zero,
                 1 => AddKind::TieWithPending(c.u16()),
                 2 => AddKind::SameBucket(c.u16()),
